@@ -12,7 +12,9 @@ pub struct Number {
 }
 impl PartialEq for Number {
     fn eq(&self, other: &Self) -> bool {
-        (self.value - other.value).abs() / self.value.abs() <= f64::EPSILON
+        // Relative to the larger magnitude, so that the relation is symmetric.
+        let scale = self.value.abs().max(other.value.abs());
+        (self.value - other.value).abs() / scale <= f64::EPSILON
     }
 }
 impl Eq for Number {}
